@@ -261,6 +261,21 @@ def _finite_bounds(q):
     return out
 
 
+def full_image(qa, f):
+    """the image of a shape request under f in which EVERY feature start is mapped, the sentinel 0 of a global feature too
+    (ends equal to u32::MAX stay): the numeric order and the ties of all range starts are then exactly those of the
+    original, so the order in which features become active is the same"""
+    t = qa.split(" ")
+    if t[7] != "-":
+        fs = []
+        for x in t[7].split(","):
+            tag, v, a, b = x.split(":")
+            fs.append(f"{tag}:{v}:{f(int(a))}:{b if int(b) == U32MAX else f(int(b))}")
+        t[7] = ",".join(fs)
+    t[10] = ",".join(f"{c}:{f(int(k))}" for c, k in (x.split(":") for x in t[10].split(",")))
+    return " ".join(t)
+
+
 def eval_pairs(ctx, shim, groups, gen=None, what_relabel=None, what_levels=None, runtime_clusters=False):
     """groups: [(font registration line(s), [request tuples])].  A request tuple is
          ("relabel", map name, f, input clusters, ranged?, request, relabelled request)   or
@@ -273,7 +288,10 @@ def eval_pairs(ctx, shim, groups, gen=None, what_relabel=None, what_levels=None,
     triple is then counted as `mid-cluster-ranges` and reported separately (decided from the level-0 reply: the bound is
     an input cluster value that no level-0 output glyph carries).  A 5th field "conflict" of a relabel tuple marks
     requests with two overlapping, contradicting settings of one AAT feature (see aat_pair_requests): counted and reported
-    separately as well."""
+    A difference on such a request is attributed to the contradiction only if it disappears when the sentinel start 0 of
+    the global features is mapped like every other start (full_image): then the sole cause is that ties between range
+    starts at 0 are broken differently; it is reported once per run with kind `relabel-conflict` (known finding).
+    Otherwise it is an ordinary `relabel` violation."""
     sfx = "/" + gen if gen else ""
     lines = []
     for reg, reqs in groups:
@@ -317,13 +335,37 @@ def eval_pairs(ctx, shim, groups, gen=None, what_relabel=None, what_levels=None,
                 if not (s0 == s1 == s2):
                     pair = "0-vs-1" if s0 != s1 else "1-vs-2"
                     found.setdefault(("levels", kind, pair), []).append((len(q0), reg, q, reps, pair))
+    # differences on requests with contradicting settings: explained by the contradiction iff the full image agrees
+    cand = [(key, it) for key in list(found) if key[0] == "relabel-conflict" for it in found.pop(key)]
+    if cand:
+        extra = [(list(it[1]) if isinstance(it[1], list) else [it[1]]) + [full_image(it[2][5], it[2][2])] for _, it in cand]
+        eo = vlib.run_groups(shim, extra, timeout=600)
+        explained = []
+        for (key, it), g, o in zip(cand, extra, eo):
+            _, reg, q, reps, detail = it
+            base = C02.parse_shape(reps[0]); full = C02.parse_shape(o[-1])
+            if base is not None and full is not None and [(x[0], q[2](x[1])) + x[2:] for x in base] == full:
+                explained.append(it + (g[-1], o[-1]))
+            else:
+                found.setdefault(("relabel", key[1]), []).append(it)
+        stats["conflicting-settings-differences"] = len(explained)
+        if explained:
+            explained.sort(key=lambda x: x[0])
+            _, reg, q, reps, detail, qfull, ofull = explained[0]
+            stats["conflicting-settings-example"] = {"font": _font_name(reg), "map": q[1], "requests": list(q[5:]) + [qfull],
+                                                     "replies": [x[:400] for x in reps] + [ofull[:400]]}
+            ctx.violation(f"shape(): relabelling changes glyphs, positions or glyph flags when two overlapping settings of one AAT feature contradict each other "
+                          f"({len(explained)} request pairs, {len(set(_font_name(x[1]) for x in explained))} fonts; {detail}; requests "
+                          f"{' | '.join(' '.join(x.split()[4:7] + x.split()[7:8] + x.split()[10:11]) for x in q[5:])}; with the global "
+                          f"features' start mapped as well ({qfull.split()[7]}) the result is the relabelled image again)",
+                          {"stage": "search", "stream": "shape-relabel", "generator": gen or "corpus", "kind": "relabel-conflict",
+                           "font_line": reg, "requests": list(q[5:]), "full_image_request": qfull, "map": q[1],
+                           "cluster_map": [[c, q[2](c)] for c in sorted(set(q[3]))],
+                           "observed": [x[:3000] for x in reps], "observed_full_image": ofull[:3000], "count": len(explained),
+                           "fonts": sorted(set(_font_name(x[1]) for x in explained))[:40]})
     for key, lst in sorted(found.items(), key=lambda kv: str(kv[0])):
         lst.sort(key=lambda x: x[0])
         _, reg, q, reps, detail = lst[0]
-        if key[0] == "relabel-conflict":
-            stats["conflicting-settings-differences"] = stats.get("conflicting-settings-differences", 0) + len(lst)
-            stats["conflicting-settings-example"] = {"font": _font_name(reg), "map": q[1], "requests": list(q[5:]), "replies": [x[:400] for x in reps]}
-            continue     # reported separately, see aat_pair_requests
         if key[0] == "levels" and key[1] != "aligned":
             stats.setdefault("mid-grapheme-differences", 0)
             stats["mid-grapheme-differences"] += len(lst)
@@ -338,6 +380,9 @@ def eval_pairs(ctx, shim, groups, gen=None, what_relabel=None, what_levels=None,
                        "count": len(lst), "fonts": sorted(set(_font_name(x[1]) for x in lst))[:40]})
     ctx.note_search("shape-relabel" + sfx, stats["relabel"], stats["relabel-nontrivial"], ranged_feature_pairs=stats["relabel-ranged"],
                     crashed_or_aborted=stats["crashed"],
+                    conflicting_settings_note="request pairs with two overlapping contradicting settings of one AAT feature; a difference "
+                                              "on them that vanishes once the global features' sentinel start 0 is mapped too is "
+                                              "reported once per run as kind relabel-conflict (known finding), any other as relabel",
                     conflicting_settings_pairs=stats.get("relabel-conflicting-settings", 0),
                     conflicting_settings_differences=stats.get("conflicting-settings-differences", 0),
                     conflicting_settings_example=stats.get("conflicting-settings-example"),
@@ -353,7 +398,12 @@ def eval_pairs(ctx, shim, groups, gen=None, what_relabel=None, what_levels=None,
                     violations_by_kind={str(k): len(v) for k, v in found.items() if k[0] == "levels"},
                     rule=(what_levels + "; " if what_levels else "") + "the same requests at the levels 0, 1 and 2: gids, advances and offsets identical in the same order "
                          "(clusters and flags may differ); requests whose ranged feature bounds may fall inside a grapheme are counted "
-                         "and reported separately (mid_grapheme_*), they are outside the hypothesis of the statement")
+                         "and reported separately (mid_grapheme_*), they are outside the hypothesis of the statement"
+                         + ("; likewise (kind mid-cluster-ranges) AAT requests with a range bound inside a cluster that an earlier morx "
+                            "subtable (rearrangement, ligature) merges at levels 0/1 - morx looks a glyph's range up by the cluster it "
+                            "carries when the subtable runs, so such a bound cuts a cluster: outside the property's quantifier (bounds "
+                            "inside a cluster), counted, never judged; decided from the level-0 reply (the bound is an input cluster "
+                            "value that no level-0 glyph carries)" if runtime_clusters else ""))
     return found
 
 
@@ -545,8 +595,26 @@ def morx_relabel(ctx, shim, r, n):
                 if t1 in fm and t2 in fm and fm[t1][0] == fm[t2][0] and int(a1) < int(b2) and int(a2) < int(b1):
                     if (fm[t1][1] if int(v1) else fm[t1][2]) != (fm[t2][1] if int(v2) else fm[t2][2]): return True
         return False
-    confl = [x for x in bad if conflicting(x[1])]
+    # a difference on a request with contradicting settings is attributed to the contradiction only if the image in which the
+    # sentinel start 0 of global features is mapped too (same activation order as the original) agrees with the original
+    cand = [x for x in bad if conflicting(x[1])]
     bad = [x for x in bad if not conflicting(x[1])]
+    confl = []
+    if cand:
+        def full(ln, f):
+            t = ln.split(" "); i = t.index("I")
+            t[i + 5] = ",".join(f"{tag}:{v}:{f(int(a))}:{b if int(b) == U32MAX else f(int(b))}" for tag, v, a, b in (x.split(":") for x in t[i + 5].split(",")))
+            if t[i + 6] != "-":
+                t[i + 6] = ",".join(f"{g}:{f(int(c))}" for g, c in (x.split(":") for x in t[i + 6].split(",")))
+            return " ".join(t)
+        fmap = {ln: f for ln, (_, f) in zip(base, maps)}
+        fo = vlib.run_lines(shim, [full(x[1], fmap[x[1]]) for x in cand], timeout=300)
+        for x, o in zip(cand, fo):
+            ga, gc = _morx_glyphs(x[4]), _morx_glyphs(o)
+            if ga is not None and gc is not None and ga[0] == gc[0] and [(g, fmap[x[1]](c)) for g, c in ga[1]] == gc[1]:
+                confl.append(x)
+            else:
+                bad.append(x)
     bad.sort(key=lambda x: x[0])
     seen = set()
     for _, ln, ln2, name, a, b, what in bad:
@@ -558,6 +626,9 @@ def morx_relabel(ctx, shim, r, n):
                       {"stage": "search", "stream": "morx-relabel", "request": ln, "relabelled_request": ln2, "map": name,
                        "observed": a[:2000], "observed_relabelled": b[:2000], "count": len(bad)})
     ctx.note_search("morx-relabel", len(base), nontriv, deviations=len(bad), conflicting_settings_differences=len(confl),
+                    conflicting_settings_note="differences explained by two contradicting overlapping settings of one AAT feature (they "
+                                              "vanish when the global features' start is mapped too): the behaviour reported as kind "
+                                              "relabel-conflict by shape-relabel/aat; counted here",
                     conflicting_settings_example=({"request": confl[0][1][-200:], "relabelled": confl[0][2][-200:], "map": confl[0][3],
                                                    "replies": [confl[0][4][:300], confl[0][5][:300]]} if confl else None),
                     rule="half: C17's generated morx + feat fonts (all five subtable kinds, random feature tables); half: directed fonts in "
@@ -640,6 +711,9 @@ def aat_pair_requests(shim, r, nfonts, per_font):
                 a = cl[i]; b = U32MAX if j is None else cl[j]
                 if a == cl[0] and b == U32MAX and r.chance(1, 2): a = 0
                 feats.append((r.choice(tags) if r.chance(5, 6) else r.choice(other), r.choice([1, 1, 0]), a, b))
+            if r.chance(1, 6):     # the same tag once more with the opposite value, globally or from the first cluster on
+                t0, v0, a0, b0 = feats[0]
+                feats.insert(r.below(len(feats) + 1), (t0, 1 - v0, 0, U32MAX if r.chance(2, 3) else max(b0, cl[-1] + 1)))
             # two overlapping settings of one AAT feature that contradict each other (same type; exclusive, or the same
             # even/odd selector pair): hb_aat_map_builder_t::compile keeps the one that became active first, ties by list
             # order - "first" compares a ranged start with the sentinel start 0 of a global feature numerically
